@@ -924,14 +924,17 @@ func getEventTime(etHeader string) time.Time {
 				if len(etHeader) == 10 {
 					eventTime = time.Unix(epochInt, 0)
 				} else if len(etHeader) > 10 {
-					// turn it into seconds and fractional seconds
-					fractionalTime := etHeader[:10] + "." + etHeader[10:]
-					// then chop it into the int part and the fractional part
-					if epochFloat, err := strconv.ParseFloat(fractionalTime, 64); err == nil {
-						sec, dec := math.Modf(epochFloat)
-						eventTime = time.Unix(int64(sec), int64(dec*(1e9)))
+					// the first ten digits are seconds, the rest is the fraction of a
+					// second; stay in integers, a float64 cannot hold that many digits
+					frac := etHeader[10:]
+					if len(frac) > 9 {
+						frac = frac[:9]
 					}
-
+					sec, errSec := strconv.ParseInt(etHeader[:10], 10, 64)
+					nsec, errFrac := strconv.ParseInt(frac+strings.Repeat("0", 9-len(frac)), 10, 64)
+					if errSec == nil && errFrac == nil {
+						eventTime = time.Unix(sec, nsec)
+					}
 				}
 			} else {
 				epochFloat, err := strconv.ParseFloat(etHeader, 64)
